@@ -89,6 +89,12 @@ def deSeq : Tree → Except Err Policies
     | .error e => .error e
   | _ => .error .wrongType
 
+/-- the value-level check `visit_seq` adds on top of the layout-dependent shape (used at `sel` nodes) -/
+def policiesValid (t : Tree) : Bool :=
+  match deSeq t with
+  | .ok _ => true
+  | .error _ => false
+
 structure MapState where
   bits : Option Nat := none
   values : Option (List Nat) := none
